@@ -147,6 +147,35 @@ EXCLUDE_DIRS = {"tests", "reported", "deployment", "hephaestus.egg-info",
                 ".git", "__pycache__"}
 
 
+STDLIB_SIGNATURES = {
+    "re.sub": ["pattern", "repl", "string", "count", "flags"],
+    "re.search": ["pattern", "string", "flags"],
+    "re.findall": ["pattern", "string", "flags"],
+    "re.match": ["pattern", "string", "flags"],
+    "re.compile": ["pattern", "flags"],
+    "shutil.copytree": ["src", "dst"],
+    "shutil.rmtree": ["path"],
+    "shutil.copyfile": ["src", "dst"],
+    "pickle.dump": ["obj", "file", "protocol"],
+    "pickle.load": ["file"],
+    "os.makedirs": ["name", "mode"],
+}
+
+
+def _move_keywords(call, params):
+    """leading keyword arguments that name the next positional parameters become positional; returns 1 if any moved"""
+    kws = {k.arg: k for k in call.keywords}
+    i = len(call.args)
+    moved = 0
+    while i < len(params) and params[i] in kws:
+        k = kws.pop(params[i])
+        call.args.append(k.value)
+        call.keywords.remove(k)
+        i += 1
+        moved = 1
+    return moved
+
+
 class Repo:
     """All parsed modules plus symbol tables."""
 
@@ -191,6 +220,36 @@ class Repo:
                 if isinstance(tgt, ClassInfo):
                     tgt = tgt.lookup("__init__")
                     skip = 1
+                if tgt is None and isinstance(node.func, ast.Attribute):
+                    # a standard-library function the rules look at positionally
+                    std = STDLIB_SIGNATURES.get(ast.unparse(node.func))
+                    if std is not None:
+                        n += _move_keywords(node, std)
+                        continue
+                    # `obj.method(...)` on a receiver that cannot be resolved: if every method of that name in the
+                    # repository has the same parameter list, the call has that parameter list (bound form)
+                    kwn = {k.arg for k in node.keywords}
+                    cands = [f for f in self.by_method.get(node.func.attr, [])
+                             if "staticmethod" not in [ast.unparse(d) for d in f.node.decorator_list]
+                             and kwn <= {x.arg for x in f.node.args.args[1:] + f.node.args.kwonlyargs}
+                             and len(node.args) <= len(f.node.args.args) - 1]
+                    sigs = {tuple(x.arg for x in f.node.args.args[1:]) for f in cands
+                            if f.node.args.vararg is None and not f.node.args.posonlyargs}
+                    if cands and len(sigs) == 1 and len(cands) == len([f for f in cands if f.node.args.vararg is None]):
+                        n += _move_keywords(node, list(sigs.pop()))
+                    continue
+                if tgt is None and isinstance(node.func, ast.Subscript):
+                    # COMPILERS[lang](...) / TRANSLATORS[lang](...): the registry's classes share one constructor signature
+                    reg = m.globals.get(ast.unparse(node.func.value)) if isinstance(node.func.value, ast.Name) else None
+                    if isinstance(reg, ast.Dict):
+                        sigs = set()
+                        for v in reg.values:
+                            c = self.resolves_to_class(v, m)
+                            init = c.lookup("__init__") if c is not None else None
+                            sigs.add(tuple(x.arg for x in init.node.args.args[1:]) if init is not None else None)
+                        if len(sigs) == 1 and None not in sigs:
+                            n += _move_keywords(node, list(sigs.pop()))
+                    continue
                 if not isinstance(tgt, FunctionInfo):
                     continue
                 a = tgt.node.args
@@ -204,16 +263,7 @@ class Repo:
                     # bound form (resolve_name_expr returns methods of module-level instances, e.g. ut.random.choice)
                     skip = 1
                 params = [x.arg for x in a.args][skip:]
-                kws = {k.arg: k for k in node.keywords}
-                i = len(node.args)
-                moved = False
-                while i < len(params) and params[i] in kws:
-                    k = kws.pop(params[i])
-                    node.args.append(k.value)
-                    node.keywords.remove(k)
-                    i += 1
-                    moved = True
-                n += moved
+                n += _move_keywords(node, params)
         return n
 
     # -- loading ---------------------------------------------------------
